@@ -112,6 +112,25 @@ func genCfg(r *Rng) *handCfg {
 			c.pos[(d+1)%n] = "s"
 		}
 		c.pos[(d+2)%n] = "b"
+		if c.bb >= 2 && r.Chance(0.12) {
+			// short big blind: after the blinds the wager to match is BELOW the big blind (the situation in which `Call` completes to
+			// the big blind and "what a call costs" and "the wager to match" part ways); the other seats hold stacks on the
+			// boundaries that matter then: just above the wager to match, around the big blind, around wager + big blind
+			bbSeat := (d + 2) % n
+			c.bank[bbSeat] = 1 + int64(r.Intn(int(c.bb-1)))
+			cw := c.bank[bbSeat]
+			if c.pos[(d+1)%n] == "s" && c.sb > cw && c.sb < c.bb {
+				cw = c.sb
+			}
+			cands := []int64{cw + 1, cw + 2, c.bb - 1, c.bb, c.bb + 1, cw + c.bb - 1, cw + c.bb, cw + c.bb + 1, cw + c.bb + 2, 2 * c.bb, 2*c.bb + 1, 2*cw + 1}
+			for i := range c.bank {
+				if i != bbSeat && r.Chance(0.75) {
+					if v := cands[r.Intn(len(cands))] + c.ante; v >= 1 {
+						c.bank[i] = v
+					}
+				}
+			}
+		}
 	}
 	return c
 }
@@ -242,7 +261,7 @@ func probeAll(h *hand) {
 			}
 			xs := []int64{gs.Status.CurrentWager + gs.Status.PreviousRaiseSize + 1}
 			if a == "bet" || a == "raise" || a == "pay" {
-				xs = append(xs, gs.Status.CurrentWager, 1, gs.Players[i].InitialStackSize)
+				xs = append(xs, gs.Status.CurrentWager, 1, gs.Players[i].InitialStackSize, gs.Status.CurrentWager+gs.Status.PreviousRaiseSize)
 			}
 			for _, x := range xs {
 				h.exec(opSpec{kind: "act", seat: i, act: a, x: x})
@@ -302,7 +321,14 @@ func playHand(o *Out, r *Rng, cfgLine string, probeP, viewP, hopP, malP float64)
 			}
 			continue
 		}
-		if r.Chance(probeP) {
+		pp := probeP
+		if st := &gs.Status; st.CurrentEvent == "RoundStarted" && st.CurrentWager > 0 && st.CurrentWager < gs.Meta.Blind.BB {
+			// the wager to match is below the big blind (short big blind, or a bet below the minimum): rare, and the place
+			// where "what a call costs" and "the wager to match" differ: look at every seat and action here far more often
+			pp = 0.35
+			o.Count("engine.wager_below_bb_states")
+		}
+		if r.Chance(pp) {
 			probeAll(h)
 		}
 		if r.Chance(viewP) {
